@@ -308,7 +308,9 @@ def cmp_lines(a, b):
 def features(chk, script, out):
     """measured distribution of what the scripts exercised (from the implementation's own output)"""
     kind = script.split(None, 1)[0]
-    if kind == 'htab':
+    if kind in ('htab', 'htabn'):
+        if kind == 'htabn':
+            chk.dist('htab_features', 'scripts_without_free_func', 1)
         toks = out.split()
         zs = [t for t in toks if t.startswith('#z')]
         es = [t[2:].split(',') for t in toks if t.startswith('#E')]
@@ -416,7 +418,7 @@ def script_stream(chk):
     if os.path.exists(corpus):
         for l in open(corpus):
             l = l.strip()
-            if l and not l.startswith('#') and l.split()[0] in KINDS:
+            if l and not l.startswith('#') and l.split()[0] in KINDS + ['htabn']:
                 yield 'corpus', l
     budget = {'varr': 400 if quick else 20000, 'bitmap': 1500 if quick else 60000,
               'htab': 1500 if quick else 60000, 'dlist': 800 if quick else 30000}
@@ -425,7 +427,10 @@ def script_stream(chk):
         for ss in subseeds:
             rng = chk.rng(kind + ss)
             for i in range(budget[kind] // len(subseeds)):
-                yield 'random', GEN[kind](rng, rng.choice([3, 8, 20, 60] if quick else [3, 8, 20, 60, 200]))
+                sc = GEN[kind](rng, rng.choice([3, 8, 20, 60] if quick else [3, 8, 20, 60, 200]))
+                if kind == 'htab' and i % 5 == 4:
+                    sc = 'htabn' + sc[4:]      # the same table created with free_func == NULL
+                yield 'random', sc
     if 'bitmap' in KINDS:
         if quick:
             for s in bitmap_state_sweep([1, 64], [0, 1]):       # 8^3 = 512 pre-states x 243 ops
@@ -441,6 +446,8 @@ def script_stream(chk):
         tables = [[4, 4, 4], [0, 1, 5], [3, 2051, 7]]
         for s in htab_seq_sweep(3 if quick else 5, tables[:2] if quick else tables):
             yield 'seq', s
+        for s in htab_seq_sweep(3 if quick else 4, tables[:1]):
+            yield 'seq', 'htabn' + s[4:]
     if 'dlist' in KINDS:
         for s in dlist_seq_sweep(3 if quick else 5, 3):
             yield 'seq', s
